@@ -71,7 +71,7 @@ def Atom.next (len c : Nat) : Atom → Nat
 def Atom.range (len c : Nat) : Atom → Nat × Nat
   | .one => if c < len then (c, c + 1) else (len, len)
   | .many n => pullRange len c n
-  | _ => (len, len)
+  | _ => (min c len, min c len)
 
 /-- `try_get_len` from a loaded counter value -/
 def lenOf (len c : Nat) : Nat := if c < len then len - c else 0
@@ -98,6 +98,7 @@ structure Cfg where
   mv : List Nat := []                      -- positions moved out to callers (in order)
   dr : List Nat := []                      -- positions dropped by the machinery (in order)
   hist : List (Nat × Nat × Atom × Nat) := []  -- ghost: (tid, slot, atom, counter read), in order
+  del : List (Nat × Nat) := []             -- ghost: (slot, position) handed out by pulls, in order
 
 def setTh (c : Cfg) (t : Nat) (x : Thread) : Cfg :=
   { c with th := fun u => if u = t then x else c.th u }
@@ -150,9 +151,37 @@ def loopParams : Op → Option (Nat × Bool × Option Nat × Bool)   -- chunk si
   | .idsvalues => some (1, true, none, false)
   | _ => none
 
-/-- One step of thread `t`: new configuration and the events it logs. -/
-def step (s : KSrc) (t : Nat) (c : Cfg) : Cfg × List Ev :=
-  let x := c.th t
+/-- perform the atomic access `a` of thread `t` on the counter of slot `k` (with the ghost records) -/
+def applyAtom (len : Nat) (c : Cfg) (t k : Nat) (a : Atom) : Cfg :=
+  let cv := c.ctr k
+  { c with ctr := fun j => if j = k then a.next len cv else c.ctr j
+           hist := c.hist ++ [(t, k, a, cv)]
+           del := c.del ++ (rangeList (a.range len cv).1 (a.range len cv).2).map fun p => (k, p) }
+
+/-- which atomic access (slot, atom) the next step of a thread in state `x` performs, if any -/
+def stepAtom (x : Thread) : Option (Nat × Atom) :=
+  match x.pc with
+  | .atom o =>
+    match o.op with
+    | .next | .nextv => some (o.slot, .one)
+    | .chunk n _ => some (o.slot, .many n)
+    | .bufnext _ =>
+      match x.buf with
+      | some (bk, n) => some (bk, .many n)
+      | none => none
+    | .skip => some (o.slot, .skip)
+    | .len | .hasmore | .clone _ => some (o.slot, .query)
+    | _ => none
+  | .loop o _ _ =>
+    match loopParams o.op with
+    | some (n, _, _, _) => some (o.slot, if n = 1 then .one else .many n)
+    | none => none
+  | _ => none
+
+/-- Everything of a step except the atomic access itself: `c0` is the configuration before the step
+(for reading the counter value the access saw), `c` the configuration after `applyAtom`. -/
+def stepRest (s : KSrc) (t : Nat) (c0 c : Cfg) : Cfg × List Ev :=
+  let x := c0.th t
   let len := s.len
   match x.pc with
   | .dead => (c, [])
@@ -185,11 +214,10 @@ def step (s : KSrc) (t : Nat) (c : Cfg) : Cfg × List Ev :=
         | none => (setTh c t { x with pc := .atom o }, [callEv])
   | .atom o =>
     let k := o.slot
-    let cv := c.ctr k
+    let cv := c0.ctr k
     let done := fun (c : Cfg) (evs : List Ev) => (setTh c t { x with pc := .idle }, evs)
     match o.op with
     | .next | .nextv =>
-      let c := { setCtr c k (Atom.next len cv .one) with hist := c.hist ++ [(t, k, .one, cv)] }
       let ev := Ev.faa (.ctr k) .acqrel cv 1
       if cv < len then
         let c := if s.owning then { c with mv := c.mv ++ [cv] } else c
@@ -197,7 +225,6 @@ def step (s : KSrc) (t : Nat) (c : Cfg) : Cfg × List Ev :=
         done c ([ev] ++ cloneEvs s [cv] ++ [.ret out])
       else done c [ev, .ret .fin]
     | .chunk n kk =>
-      let c := { setCtr c k (Atom.next len cv (.many n)) with hist := c.hist ++ [(t, k, .many n, cv)] }
       let ev := Ev.faa (.ctr k) .acqrel cv n
       let (b, e) := pullRange len cv n
       if b = e then done c [ev, .ret .fin]
@@ -212,8 +239,7 @@ def step (s : KSrc) (t : Nat) (c : Cfg) : Cfg × List Ev :=
       match x.buf with
       | none => done c []
       | some (bk, n) =>
-        let cv := c.ctr bk
-        let c := { setCtr c bk (Atom.next len cv (.many n)) with hist := c.hist ++ [(t, bk, .many n, cv)] }
+        let cv := c0.ctr bk
         let ev := Ev.faa (.ctr bk) .acqrel cv n
         if cv < len then
           let (b, e) := pullRange len cv n
@@ -225,26 +251,20 @@ def step (s : KSrc) (t : Nat) (c : Cfg) : Cfg × List Ev :=
           done c ([ev] ++ cloneEvs s taken ++ dropEvs s rest ++ [.ret (.chunk b a (a - j) (taken.map s.valAt))])
         else done c [ev, .ret .fin]
     | .skip =>
-      let c := { setCtr c k len with hist := c.hist ++ [(t, k, .skip, cv)] }
       done c [.st (.ctr k) .seqcst len, .ret .unit]
     | .len =>
-      let c := { c with hist := c.hist ++ [(t, k, .query, cv)] }
       done c [.ld (.ctr k) .acquire cv, .ret (.len (some (lenOf len cv)))]
     | .hasmore =>
-      let c := { c with hist := c.hist ++ [(t, k, .query, cv)] }
       done c [.ld (.ctr k) .acquire cv, .ret (.more (hasMoreOf (lenOf len cv)))]
     | .clone j =>
-      let c := { setCtr c j cv with hist := c.hist ++ [(t, k, .query, cv)] }
-      done c [.ld (.ctr k) .seqcst cv, .ret .unit]
+      done (setCtr c j cv) [.ld (.ctr k) .seqcst cv, .ret .unit]
     | _ => done c []
   | .loop o visits sum =>
     let k := o.slot
-    let cv := c.ctr k
+    let cv := c0.ctr k
     match loopParams o.op with
     | none => (setTh c t { x with pc := .idle }, [])
     | some (n, withIdx, panicAt, isFold) =>
-      let atom := if n = 1 then Atom.one else Atom.many n
-      let c := { setCtr c k (Atom.next len cv atom) with hist := c.hist ++ [(t, k, atom, cv)] }
       let ev := Ev.faa (.ctr k) .acqrel cv n
       if cv < len then
         let (b, e) := if n = 1 then (cv, cv + 1) else pullRange len cv n
@@ -265,6 +285,12 @@ def step (s : KSrc) (t : Nat) (c : Cfg) : Cfg × List Ev :=
       else
         let out := if isFold then Out.fold sum else Out.done
         (setTh c t { x with pc := .idle }, [ev, .ret out])
+
+/-- One step of thread `t`: new configuration and the events it logs. -/
+def step (s : KSrc) (t : Nat) (c : Cfg) : Cfg × List Ev :=
+  match stepAtom (c.th t) with
+  | some (k, a) => stepRest s t c (applyAtom s.len c t k a)
+  | none => stepRest s t c c
 
 /-- Owner phase on slot 0 (main thread, after all threads are done): events logged with prefix `own`. -/
 def owner (s : KSrc) (c : Cfg) (op : OwnerOp) : Cfg × List Ev :=
